@@ -19,9 +19,14 @@ def register_atom(eng, sym, excludes):
     return sym
 
 
+_NOT_IN_DECIMAL = set(chr(i) for i in range(128)) - set('0123456789-')
+
+
 def excl(eng, part):
     if isinstance(part, str):
         return None
+    if getattr(part, 'src', None) is not None:
+        return _NOT_IN_DECIMAL        # str(<int>): digits and a leading minus only
     return eng.ghost.get('_str_excl', {}).get(part.z.get_id(), set())
 
 
